@@ -94,6 +94,11 @@ func sessGen(r *vh.Rng, maxOps int) []string {
 			if r.Bool(30) {
 				cb = "nocb"
 			}
+			if r.Bool(7) {
+				// an unreachable destination: the switch fails, the miner stays where it is
+				ops = append(ops, fmt.Sprintf("setdest px %s", cb))
+				break
+			}
 			ops = append(ops, fmt.Sprintf("setdest %s %s", p, cb))
 			connected[p] = true
 			active = p
@@ -211,7 +216,7 @@ func sessExec(tr *vh.Transcript, ops []string) {
 			if f[2] == "cb" {
 				s.cbN++
 				k := s.cbN
-				cb = func(d float64) { s.rec.add("cb", "%d %d", k, int64(d)) }
+				cb = func(d float64) { s.rec.add("cb", "%d %d", k, units(d)) }
 			}
 			done := make(chan struct{})
 			go func() {
